@@ -5,7 +5,7 @@ import struct
 from fractions import Fraction
 
 from vlib import build as B
-from vlib.core import Case
+from vlib.core import Case, run_lines
 
 ID = "C08"
 LEVEL = "proof"
@@ -59,7 +59,62 @@ HARNESS_EXTRA = ["-fwrapv", "-fno-sanitize=shift,signed-integer-overflow"]
 
 
 def build(tier):
-    return {"impl": [B.harness("h_c08", runtime=["modp_numtoa.c"], extra=HARNESS_EXTRA)]}
+    # two builds of the same harness: the relaxed one (-fwrapv, shift/overflow sanitizers off) shows
+    # WHICH value fast_atoi<int> produces where the C++ rules are broken; the strict one (all default
+    # sanitizers) shows THAT they are broken (cases "itoaS")
+    return {"impl": [B.harness("h_c08", runtime=["modp_numtoa.c"], extra=HARNESS_EXTRA)],
+            "impl_strict": [B.harness("h_c08", runtime=["modp_numtoa.c"])]}
+
+
+UB_RE = re.compile(r"([^\s:]+):(\d+):\d+: (runtime error: [^\n]*)")
+
+
+def run_batch(argv, lines):
+    """Line protocol with cheap crash isolation.  The harness answers every case with one flushed line,
+    so when the process dies the culprit is the first case without an answer; its sanitizer report is on
+    stderr.  UBSan's stack trace (seconds of symbolizing per report) is switched off: the report line
+    itself carries file:line.  Result format as vlib.core.run_lines: 'CRASH <report> at <file>:<line>'."""
+    import os
+    import subprocess
+    env = dict(os.environ)
+    env["ASAN_OPTIONS"] = "detect_leaks=0:abort_on_error=0:halt_on_error=1:allocator_may_return_null=1"
+    env["UBSAN_OPTIONS"] = "print_stacktrace=0:halt_on_error=1"
+    out = []
+    while len(out) < len(lines):
+        rest = lines[len(out):]
+        try:
+            p = subprocess.run(argv, input=("\n".join(rest) + "\n").encode(), stdout=subprocess.PIPE,
+                               stderr=subprocess.PIPE, timeout=600, env=env)
+        except subprocess.TimeoutExpired:
+            # fall back to the generic runner (isolates hangs one by one)
+            return out + run_lines(argv, rest)
+        got = p.stdout.decode(errors="replace").split("\n")
+        got.pop()
+        got = got[:len(rest)]
+        out += got
+        if len(got) < len(rest):
+            err = p.stderr.decode(errors="replace")
+            m = UB_RE.search(err)
+            if m:
+                f = m.group(1)
+                f = os.path.relpath(f, B.REPO) if f.startswith(B.REPO) else f
+                out.append("CRASH %s at %s:%s" % (re.sub(r"\s+", " ", m.group(3))[:160], f, m.group(2)))
+            else:
+                m = re.search(r"ERROR: AddressSanitizer: [a-z\-]+", err)
+                out.append("CRASH " + (m.group(0) if m else "exit %d" % p.returncode))
+    return out
+
+
+def run_impl(built, cases, tier):
+    strict = [k for k, c in enumerate(cases) if c.line.startswith("itoaS ")]
+    relaxed = [k for k, c in enumerate(cases) if not c.line.startswith("itoaS ")]
+    out = [None] * len(cases)
+    for idx, exe in ((relaxed, built["impl"]), (strict, built["impl_strict"])):
+        if idx:
+            res = run_batch(exe, [cases[k].line for k in idx])
+            for k, r in zip(idx, res):
+                out[k] = r
+    return out
 
 
 # ------------------------------------------------------------------------------ helpers
@@ -91,6 +146,10 @@ def step(d, n):
 
 def I(v):
     return Case("itoa %d" % v, "itoa")
+
+
+def IS(v):
+    return Case("itoaS %d" % v, "itoa-strict")
 
 
 def U(v):
@@ -154,6 +213,19 @@ def gen_int(rng, tier):
         cs.append(I(v if rng.random() < 0.6 else -v))
     for _ in range(500 if thorough else 60):
         cs.append(I(rng.randrange(INT_MIN, INT_MAX + 1)))
+    # the same round trip in the strict (UBSan) build: the edge of the signed overflow in the last
+    # digit (v + 48 > INT_MAX from 2147483600 on) and a few negatives; every breaking case costs a
+    # process restart, so only a handful of those
+    for v in (0, 7, 10, 99, 12345, 999999999, 1000000000, 2147483590, 2147483598, 2147483599, 2147483600, 2147483601,
+              2147483609, 2147483610, 2147483639, 2147483640, INT_MAX - 1, INT_MAX, -1, -5, -10, INT_MIN, -2115098112):
+        cs.append(IS(v))
+    for _ in range(300 if thorough else 60):
+        cs.append(IS(rand_digits(rng, rng.randrange(1, 10))))
+    for _ in range(300 if thorough else 40):
+        cs.append(IS(rng.randrange(10 ** 9, 2147483600)))
+    for _ in range(12 if thorough else 3):
+        cs.append(IS(rng.randrange(2147483600, INT_MAX + 1)))
+        cs.append(IS(max(INT_MIN, -max(1, rand_digits(rng, rng.randrange(1, 11))))))
     uvals = {0, 1, 9, 10, UINT_MAX, UINT_MAX - 1, 2 ** 31, 2 ** 31 - 1, 2 ** 31 + 1, 4 * 10 ** 9, 4294967290}
     for k in range(1, 10):
         for d in (-1, 0, 1):
@@ -350,6 +422,11 @@ def postprocess(case, r):
     # value > 2^31-1: modp_dtoa hands over to sprintf("%e"); glibc's text is not modelled
     if case.line.startswith("dtoa ") and EXP_RE.match(r):
         return "EXP"
+    if case.line.startswith("itoaS ") and r.startswith("CRASH") and "f8utils.hpp" in r:
+        if "left shift of negative value" in r:
+            return "UB-SHIFT-NEGATIVE"
+        if "signed integer overflow" in r:
+            return "UB-SIGNED-OVERFLOW"
     # ++whole on INT_MAX in the rounding stage (UBSan stops the process there)
     if case.line.startswith("dtoa ") and r.startswith("CRASH") and "signed integer overflow: 2147483647 + 1" in r \
             and "modp_numtoa.c" in r:
@@ -359,7 +436,7 @@ def postprocess(case, r):
 
 def nontrivial(case, r):
     w = case.line.split()
-    if w[0] in ("itoa", "utoa"):
+    if w[0] in ("itoa", "utoa", "itoaS"):
         return abs(int(w[1])) >= 10
     if w[0] == "atoi":
         return len(w[3]) >= 4 and w[3] != "-"
@@ -534,6 +611,16 @@ def c_atoi_negative(case, r, m):
     return False
 
 
+def c_atoi_top_overflow(case, r, m):
+    w = case.line.split()
+    return w[0] == "itoaS" and 2147483600 <= int(w[1]) <= INT_MAX and r == "UB-SIGNED-OVERFLOW"
+
+
+def c_atoi_neg_shift(case, r, m):
+    w = case.line.split()
+    return w[0] == "itoaS" and INT_MIN <= int(w[1]) < 0 and r == "UB-SHIFT-NEGATIVE"
+
+
 def c_rollover(case, r, m):
     return dtoa_explained(analyse_dtoa(case, r), "rollover")
 
@@ -563,7 +650,8 @@ def c_atof_inexact(case, r, m):
     return False
 
 
-CLASSIFIERS = {"atoi-negative": c_atoi_negative, "dtoa-tie-rollover": c_rollover, "dtoa-inexact-half": c_inexact_half,
+CLASSIFIERS = {"atoi-negative": c_atoi_negative, "atoi-top-overflow": c_atoi_top_overflow,
+               "atoi-negative-shift": c_atoi_neg_shift, "dtoa-tie-rollover": c_rollover, "dtoa-inexact-half": c_inexact_half,
                "dtoa-exp-sliver": c_sliver, "dtoa-whole-overflow": c_overflow, "atof-inexact": c_atof_inexact}
 
 
@@ -575,10 +663,10 @@ def extra_search(rng, seeds, tier):
     out = out[:6000]
     for c in seeds[:30]:
         w = c.line.split()
-        if w[0] in ("itoa", "utoa"):
+        if w[0] in ("itoa", "utoa", "itoaS"):
             v = int(w[1])
             for d in (-2, -1, 1, 2, 10, -10):
-                if (w[0] == "itoa" and INT_MIN <= v + d <= INT_MAX) or (w[0] == "utoa" and 0 <= v + d <= UINT_MAX):
+                if (w[0] in ("itoa", "itoaS") and INT_MIN <= v + d <= INT_MAX) or (w[0] == "utoa" and 0 <= v + d <= UINT_MAX):
                     out.append(Case("%s %d" % (w[0], v + d), "neighbour"))
         elif w[0] == "dtoa":
             d = dbl_of(int(w[2], 16))
